@@ -15,10 +15,11 @@
 (***************************************************************************)
 EXTENDS Naturals, Sequences, FiniteSets, TLC, Json, SequencesExt
 
-CONSTANTS MaxFeatures, MinFeatures
+CONSTANTS MaxFeatures, MinFeatures,
+          Avoid   \* features never added in this configuration (open findings are covered by the pairs scope only)
 
 FieldFeatures == {"f_scalars", "f_enum", "f_nested", "f_map", "f_oneof", "f_optional", "f_recursive", "f_mutual", "f_forward",
-                  "f_wkt", "f_reserved", "f_deppkg", "f_crossfile"}
+                  "f_wkt", "f_reserved", "f_deppkg", "f_crossfile", "f_subpackage", "f_upper_file"}
 MethodFeatures == {"m_sstream", "m_cstream", "m_bidi", "m_lro", "m_lro_empty", "m_paged_map", "m_paged_legacy", "m_deprecated",
                    "m_kw", "m_unsafe", "m_dep_request"}
 HttpFeatures == {"h_none", "h_additional", "h_nested_var", "h_body_star", "h_verbs"}
@@ -32,18 +33,18 @@ vars == <<F, stage>>
 
 Requires(f) == CASE f = "r_child_ref"   -> {"r_resource"}
                  [] f = "m_dep_request" -> {"f_deppkg"}
-                 [] f = "o_rest_async"  -> {"o_grpc_rest"}     \* async REST next to gRPC (rest-only + async REST: finding F16)
                  [] OTHER -> {}
 Excludes(f) == CASE f = "h_none"      -> {"h_additional", "h_nested_var", "h_body_star", "h_verbs", "o_rest", "o_grpc_rest", "o_rest_async"}
-                 [] f = "o_rest"      -> {"o_grpc_rest", "h_none", "o_rest_async"}
+                 [] f = "o_rest"      -> {"o_grpc_rest", "h_none"}
                  [] f = "o_grpc_rest" -> {"o_rest", "h_none"}
-                 [] f = "o_ads"       -> {"o_rest_async", "o_mixins", "o_iam"}
+                 [] f = "o_ads"       -> {"o_rest_async"}
                  [] f \in {"h_additional", "h_nested_var", "h_body_star", "h_verbs"} -> {"h_none"}
                  [] OTHER -> {}
-WF(S) == \A f \in S : Requires(f) \subseteq S /\ \A g \in S : g \notin Excludes(f) /\ f \notin Excludes(g)
+WF(S) == /\ \A f \in S : Requires(f) \subseteq S /\ \A g \in S : g \notin Excludes(f) /\ f \notin Excludes(g)
+         /\ ("o_rest_async" \in S => ("o_rest" \in S \/ "o_grpc_rest" \in S))     \* async REST needs the REST transport
 
 Init == F = {} /\ stage = "build"
-AddFeature(f) == /\ stage = "build" /\ f \notin F /\ Cardinality(F) < MaxFeatures
+AddFeature(f) == /\ stage = "build" /\ f \notin F /\ f \notin Avoid /\ Cardinality(F) < MaxFeatures
                  /\ WF(F \cup {f} \cup Requires(f))
                  /\ F' = F \cup {f} \cup Requires(f)
                  /\ UNCHANGED stage
@@ -57,7 +58,8 @@ Transports == IF Has("o_rest") THEN <<"rest">> ELSE IF Has("o_grpc_rest") THEN <
 HasT(t) == \E i \in 1..Len(Transports) : Transports[i] = t
 Services == {"Library"} \cup (IF Has("s_two_services") THEN {"BookAdmin"} ELSE {})
 \* the Ads template set has no asyncio client template (named deviation, DESIGN C01)
-HasAsync == HasT("grpc") /\ ~Has("o_ads")
+\* the asyncio client exists with gRPC, and (experimental) with async REST
+HasAsync == (HasT("grpc") \/ Has("o_rest_async")) /\ ~Has("o_ads")
 Clients == {s \o "Client" : s \in Services} \cup (IF HasAsync THEN {s \o "AsyncClient" : s \in Services} ELSE {})
 Registry == (IF HasT("grpc") THEN (IF Has("o_ads") THEN <<"grpc">> ELSE <<"grpc", "grpc_asyncio">>) ELSE <<>>)
             \o (IF HasT("rest") THEN <<"rest">> ELSE <<>>)
@@ -82,7 +84,8 @@ Mixins == IF Has("o_mixins")
           ELSE IF Has("o_iam") THEN {"get_iam_policy", "set_iam_policy", "test_iam_permissions"} ELSE {}
 
 \* DESIGN section 8: shapes outside the conventions the emitted tests are written for (X1..X4) or open findings
-OutsideConventional == {"m_dep_request"}
+\* + the shapes of DESIGN section 9 that are still open findings (F4 sub-packages, F15 upper-case file names, F13 pb2 paged request)
+OutsideConventional == {"m_dep_request", "f_subpackage", "f_upper_file"}
 Conventional == F \cap OutsideConventional = {} /\ ~(Has("s_uuid4") /\ Has("s_required") /\ HasT("rest"))   \* X4
 
 -----------------------------------------------------------------------------
@@ -92,8 +95,23 @@ Inv_RegistryRequested == \A i \in 1..Len(Registry) :
                            /\ (Registry[i] \in {"grpc", "grpc_asyncio"} => HasT("grpc"))
                            /\ (Registry[i] \in {"rest", "rest_asyncio"} => HasT("rest"))
 Inv_OneSyncClientPerService == \A s \in Services : (s \o "Client") \in Clients
-Inv_AsyncIffGrpc == ~Has("o_ads") => ((\E s \in Services : (s \o "AsyncClient") \in Clients) <=> HasT("grpc"))
+Inv_AsyncIffGrpc == (~Has("o_ads") /\ ~Has("o_rest_async")) => ((\E s \in Services : (s \o "AsyncClient") \in Clients) <=> HasT("grpc"))
 Inv_PagedLroDisjoint == Paged \cap Lro = {} /\ Paged \subseteq LibraryRpcs /\ Lro \subseteq LibraryRpcs
+
+(* C13: the inventory the emitted unit-test suite must contain.  A test is classified by the harness   *)
+(* (pure name projection) as [rpc |-> snake name, kind |-> grpc | grpc-async | rest, pager |-> BOOLEAN].  *)
+SnakeOf == [ GetBook |-> "get_book", CreateBook |-> "create_book", UpdateBook |-> "update_book", DeleteBook |-> "delete_book",
+             ListBooks |-> "list_books", MoveBook |-> "move_book", WatchBooks |-> "watch_books", UploadBooks |-> "upload_books",
+             ChatBooks |-> "chat_books", ExportBooks |-> "export_books", PurgeBooks |-> "purge_books", ListById |-> "list_by_id",
+             ListOld |-> "list_old", Import |-> "import_", CreateChannel |-> "create_channel", RenameBook |-> "rename_book",
+             CheckDep |-> "check_dep" ]
+TestKinds == (IF HasT("grpc") THEN {"grpc"} ELSE {}) \cup (IF HasT("grpc") /\ HasAsync THEN {"grpc-async"} ELSE {})
+             \cup (IF HasT("rest") THEN {"rest"} ELSE {})
+RequiredTests == { [rpc |-> SnakeOf[r], kind |-> k, pager |-> FALSE] : r \in LibraryRpcs, k \in TestKinds }
+           \cup { [rpc |-> SnakeOf[r], kind |-> k, pager |-> TRUE] : r \in Paged, k \in TestKinds }
+           \cup { [rpc |-> m, kind |-> k, pager |-> FALSE] : m \in Mixins, k \in TestKinds }
+\* verdict on one observed run of the emitted suite
+SuiteOk(tests, failures, errors) == failures = 0 /\ errors = 0 /\ RequiredTests \subseteq tests
 
 Case == [ features |-> F, transports |-> Transports, clients |-> Clients, registry |-> Registry, default |-> DefaultTransport,
           services |-> Services, rpcs |-> LibraryRpcs, paged |-> Paged, lro |-> Lro, cstream |-> ClientStreaming,
